@@ -43,30 +43,37 @@ def _canon(value):
     return tuple(out)
 
 
+STANDARD_BMP = {(4, 3, 1), (4, 0, 3), (4, 0, 4), (4, 0, 6)}
+STANDARD_FULL = {(12, 3, 10), (12, 0, 4), (12, 0, 6)}
+
+
 def unicode_cmap(font):
-    """The font's Unicode character map {code point: glyph name} and a reason when the Unicode subtables of the
-    font disagree with each other (then which one "the" character map is depends on the reader: out of domain)."""
+    """The font's Unicode character map {code point: glyph name}, or a reason why the font is outside the domain:
+    the OpenType specification pairs format 4 with the BMP encodings (platform 3 encoding 1, platform 0 encodings 3/4/6)
+    and format 12 with the full-repertoire encodings (3/10, 0/4, 0/6); the merger reads exactly those (named deviation
+    CmapOnlyStandardUnicode: every other subtable is dropped with a warning).  A font that carries Unicode mappings in
+    any other form, or whose subtables disagree with each other, has no single character map to preserve."""
     if "cmap" not in font:
         return {}, "no cmap"
-    tabs = [t for t in font["cmap"].tables if t.isUnicode() and t.format in (4, 12) and (t.platformID, t.platEncID) != (3, 0)]
+    bmp, full = [], []
+    for t in font["cmap"].tables:
+        key = (t.format, t.platformID, t.platEncID)
+        if key in STANDARD_BMP:
+            bmp.append(t)
+        elif key in STANDARD_FULL:
+            full.append(t)
+        elif t.format == 14 or not t.isUnicode() or (t.platformID, t.platEncID) == (3, 0):
+            continue  # variation sequences, Macintosh / symbol encodings: not part of the Unicode character map
+        else:
+            return {}, "cmap subtable with a non-standard format/platform/encoding combination (format %d, %d/%d)" % key
     union = {}
-    for t in tabs:
+    for t in bmp + full:
         for u, g in t.cmap.items():
             if union.setdefault(u, g) != g:
                 return union, "Unicode cmap subtables disagree"
-    full = [t for t in tabs if t.format == 12]
-    if full:
-        # the merger (and every shaper) reads the full-repertoire subtable when there is one
-        for t in full:
-            if dict(t.cmap) != union:
-                return union, "format 4 and format 12 cmap subtables differ"
-    else:
-        for t in tabs:
-            if dict(t.cmap) != union:
-                return union, "Unicode BMP cmap subtables differ"
-    others = [t for t in font["cmap"].tables if t.format not in (4, 12, 14) and t.isUnicode()]
-    if others:
-        return union, "Unicode cmap subtable of format other than 4/12/14"
+    for t in (full if full else bmp):
+        if dict(t.cmap) != union:
+            return union, "Unicode cmap subtables of one font cover different characters"
     return union, None
 
 
@@ -269,6 +276,7 @@ def _run_case(case):
         af, info = project(font, intern, layout=model or case.get("layout", False))
         info["shaping_tables"] = [t for t in SHAPING_TABLES if t in font]
         info["gdef_classes"] = "GDEF" in font and font["GDEF"].table.GlyphClassDef is not None and bool(font["GDEF"].table.GlyphClassDef.classDefs)
+        info["gdef_marks"] = info["gdef_classes"] and 3 in font["GDEF"].table.GlyphClassDef.classDefs.values()
         info["flags"] = any(lk.LookupFlag & 0x0E for tag in ("GSUB", "GPOS") if tag in font and font[tag].table.LookupList
                             for lk in font[tag].table.LookupList.Lookup)
         afs.append(af)
@@ -341,6 +349,9 @@ def _run_case(case):
             continue
         if info["required"]:
             skipped_hb.append("input has a required feature -- shaping not compared")
+            continue
+        if info["gdef_marks"] and af["hasgpos"] != ("GPOS" in mfont):
+            skipped_hb.append("HarfBuzz fallback mark positioning (GDEF marks, GPOS present in only one of input / merged font)")
             continue
         m_gdef = "GDEF" in mfont and mfont["GDEF"].table.GlyphClassDef is not None and bool(mfont["GDEF"].table.GlyphClassDef.classDefs)
         if info["flags"] and info["gdef_classes"] != m_gdef:
